@@ -37,8 +37,8 @@ func init() {
 	engine.Register(&engine.Check{
 		ID:         "C20",
 		Technique:  "exhaustive enumeration of the request / message input product through the real bundled HTTP and WebSocket code over the real stack in the deterministic world (frames pumped at a quiescence barrier; the pacing of application reads against segment arrival enumerated as environment choices), compared with what was sent and with an independent RFC 6455 frame codec and accept-key computation",
-		Rule:       "HTTP: methods {GET,HEAD,POST,PUT} x 4 paths (3 registered, 1 not) x all subsets of a 4-header menu x bodies {empty, 1 byte, 1 KiB, largest that fits one segment}; sequences of <=3 requests on fresh connections; WebSocket: accept key for 8 client keys; every message length 0..130 and 65530..65540 plus {200 KiB, 300 KiB}, unmasked (bundled client) and masked with keys {00000000, ffffffff, 01020304, 80000001} (raw client), sequences of <=3 messages in both directions; pacing: for 2-message exchanges (single- and multi-segment, with and without server pushes) every vector over {at once, after 1 frame, after 2 frames, when idle} for the server's three reads x client reads {at once, when idle} x frames delivered {1, 2, all} per barrier x pipelined / lock-step client; distinct = distinct input tuple and pacing; all non-trivial",
-		Assumes:    []string{"bodies and header values are in the grammar the bundled parser carries (no ': ' and no CRLF inside)", "a request fits one TCP segment (the HTTP layer reads a message with a single receive); MTU 65535 on the loopback wire"},
+		Rule:       "HTTP: methods {GET,HEAD,POST,PUT} x 4 paths (3 registered, 1 not) x all subsets of a 4-header menu x bodies {empty, 1 byte, 1 KiB, largest that fits one segment, 7 bodies with line breaks / spaces at the front, in the middle, at the end}; sequences of <=3 requests on fresh connections; WebSocket: accept key for 8 client keys; every message length 0..130 and 65530..65540 plus {200 KiB, 300 KiB}, unmasked (bundled client) and masked with keys {00000000, ffffffff, 01020304, 80000001} (raw client), sequences of <=3 messages in both directions; pacing: for 2-message exchanges (single- and multi-segment, with and without server pushes) every vector over {at once, after 1 frame, after 2 frames, when idle} for the server's three reads x client reads {at once, when idle} x frames delivered {1, 2, all} per barrier x pipelined / lock-step client; distinct = distinct input tuple and pacing; all non-trivial",
+		Assumes:    []string{"bodies and header values are in the grammar the bundled parser carries (no ': ' anywhere; header values without CRLF)", "a request fits one TCP segment (the HTTP layer reads a message with a single receive); MTU 65535 on the loopback wire"},
 		Jobs:       c20Jobs,
 		Run:        c20Run,
 		Replay:     c20Replay,
@@ -288,7 +288,14 @@ type c20Req struct {
 	BodyLen int
 }
 
+// bodies with line breaks at the front, in the middle and at the end (negative "lengths"): the
+// bundled parser carries them as long as no ": " occurs
+var c20SpecialBodies = []string{"\nsecond line", "\r", "\r\n\r\npayload", "first\r\nsecond", "tail\r\n", "\n", " leading space"}
+
 func c20Body(n int, seed int) string {
+	if n < 0 {
+		return c20SpecialBodies[(-n-1)%len(c20SpecialBodies)]
+	}
 	const alpha = "abcdefghijklmnopqrstuvwxyzABCDEFGHIJKLMNOPQRSTUVWXYZ0123456789 .,;-_/"
 	b := make([]byte, n)
 	for i := range b {
@@ -299,6 +306,9 @@ func c20Body(n int, seed int) string {
 
 func (c *c20World) doHTTP(q c20Req, idx int) *c20Fail {
 	name := fmt.Sprintf("%s %s headers %v body %d bytes", q.Method, q.Path, q.Headers, q.BodyLen)
+	if q.BodyLen < 0 {
+		name = fmt.Sprintf("%s %s headers %v body %q", q.Method, q.Path, q.Headers, c20Body(q.BodyLen, 0))
+	}
 	body := c20Body(q.BodyLen, idx)
 	wantReply := "reply-to-" + q.Path + "-" + fmt.Sprint(idx)
 	c20Mu.Lock()
@@ -868,6 +878,9 @@ func c20Run(job, tier string, deadline time.Time) *engine.Result {
 	bodies := []int{0, 1, 1024, maxBody}
 	if tier != "thorough" {
 		bodies = []int{0, 1, 1024}
+	}
+	for k := range c20SpecialBodies {
+		bodies = append(bodies, -(k + 1))
 	}
 	switch parts[0] {
 	case "http":
